@@ -261,7 +261,6 @@ func genRoutingData() *coqFile {
 	return c
 }
 
-
 type routeHit struct {
 	slot int
 	mode string
